@@ -9,10 +9,16 @@ def _c(n, ids, digits):
          "decimal digits each and whose payload byte x is symbolic in a..z (so: either order, duplicated, unknown and zero-padded IDs); the %d..%d-byte stream is cut into two reads at every position" % (ids, digits, 10, 12))
     t = q.replace("cut into two reads at every position", "cut into one, two or three reads at every pair of positions")
     return (dict(name=n, bounds=q + _KF, reach=list(_R), sample_every=29, max_samples=4), dict(name=n, bounds=t + _KF, reach=list(_R), sample_every=211, max_samples=4))
+def _w(n, ids):
+    q = ("as the c47_ids entries with requests on channels %s; the first reply line's channel-ID field is '42949672' followed by 2 fully symbolic decimal digits (4294967200..4294967299, "
+         "values beyond 32 bits), the second line's is 1 symbolic digit; the stream is cut into two reads at every position" % ids)
+    return (dict(name=n, bounds=q, reach=["one-unknown-or-duplicate", "none"] if "1 and 2" == ids else ["both-in-order", "one-unknown-or-duplicate", "none"], sample_every=29, max_samples=4),
+            dict(name=n, bounds=q.replace("cut into two reads at every position", "cut into one, two or three reads at every pair of positions"), reach=["one-unknown-or-duplicate", "none"] if "1 and 2" == ids else ["both-in-order", "one-unknown-or-duplicate", "none"], sample_every=211, max_samples=4))
 _S = ("one non-concurrent helper session (concurrency=0), two requests submitted (the second is dispatched when the first reply has arrived); the helper writes two reply lines 'r <x> [CR] LF' "
       "(x symbolic in a..z, CR present or not per line); the stream is cut into one, two or three reads at every pair of positions")
 _FAM = [_c("c47_ids_1_2", "1 and 2", "1"), _c("c47_ids_9_10", "9 and 10", "1 or 2"), _c("c47_ids_1_12", "1 and 12 (one ID is a decimal prefix of the other)", "1 or 2"),
         _c("c47_ids_5_50", "5 and 50", "1 or 2"),
+        _w("c47_wide_reply_id", "1 and 2"), _w("c47_big_request_id", "4294967297 (2^32 + 1) and 2"),
         (dict(name="c47_serial", bounds=_S, reach=["in-order", "cr-kept"], sample_every=13, max_samples=4), dict(name="c47_serial", bounds=_S, reach=["in-order", "cr-kept"], sample_every=13, max_samples=4))]
 SPEC = dict(
     harness="C47_helper.cc", units=_U,
@@ -35,5 +41,5 @@ SPEC = dict(
            "std::_Rb_tree_insert_and_rebalance/_Rb_tree_rebalance_for_erase/_Rb_tree_increment/_Rb_tree_decrement (libstdc++.so, std::map requestsIndex) modelled in the harness as an unbalanced binary search tree for the interpreted build; the native replay uses libstdc++",
            "int shutting_down, reconfiguring, starting_up defined by the harness (globals.cc not linked)", "debugs() disabled"],
     assumptions=["a CR that a read boundary separates from its LF stays at the end of the reply text (accepted by the harness: the reply is still the right one)"],
-    outside="everything listed under gap; reply payloads other than two non-whitespace bytes (result codes, key=value annotations, embedded whitespace); channel-ID fields with a sign, leading whitespace or more than two digits",
+    outside="everything listed under gap; reply payloads other than two non-whitespace bytes (result codes, key=value annotations, embedded whitespace); channel-ID fields with a sign or leading whitespace; channel-ID values other than 0..99 and 4294967200..4294967299",
 )
